@@ -5,6 +5,7 @@
   negative `pos` included, ZeroDivisionError on an empty structure included.
 -/
 import MofunModel.Proofs.Code2Topo
+import MofunModel.Proofs.Code3Topo
 
 namespace Mofun.C10Code
 open Mofun Mofun.Generated Mofun.Code2Topo
@@ -49,5 +50,60 @@ theorem default_pos : Generated.Code.popIndex_default_pos = -1 := rfl
 example : Generated.Code.popIndex 5 (-1) = some [4] := by decide
 example : Generated.Code.popIndex 5 (-7) = some [3] := by decide
 example : Generated.Code.popIndex 0 (-1) = none := by decide
+
+/-! ### `_delete_and_reindex_atom_index_array` (third batch) -/
+
+open Mofun.Code2Terms Mofun.Code3Topo
+
+/-- for ALL index arrays and ALL lists of deleted indices: the translated helper returns (the rows without a deleted
+    atom, every entry re-indexed by the model's `reindex`; the positions of the dropped rows) -/
+theorem deleteAndReindex_eq (arr : List (List Nat)) (sd : List Nat) :
+    Generated.Code.deleteAndReindex arr sd =
+      ((arr.filter (fun t => !(t.any (fun a => sd.contains a)))).map (fun row => row.map (reindex sd)),
+       ((arr.zipIdx).filter (fun p => p.1.any (fun a => sd.contains a))).map (·.2)) := by
+  unfold Generated.Code.deleteAndReindex Py.npDelete Py.enumerate
+  simp only [forFold_eq_foldl]
+  have e : ∀ (acc : List Nat) (p : Nat × List Nat),
+      (if (List.any (List.map (fun a => List.contains sd a) p.2) id) = true then acc ++ [p.1] else acc) =
+        if (p.2.any (fun a => sd.contains a)) then acc ++ [p.1] else acc := by
+    intro acc p; simp [List.any_map]
+  have := collect_eq (fun t : List Nat => t.any (fun a => sd.contains a)) arr 0 []
+  simp only [List.nil_append] at this
+  have h2 := deleteIdx_collected (fun t : List Nat => t.any (fun a => sd.contains a)) arr
+  try simp only [] at h2
+  simp only [e, this, reindex_fold, h2]
+/-- the rows `_delete_and_reindex_atom_index_array` returns for a term table are the atom tuples of the model's `deleteTerms` -/
+theorem deleteTerms_atoms (ts : List Term) (idx : List Nat) :
+    (Generated.Code.deleteAndReindex (ts.map (·.atoms)) (sortDesc idx)).1 = (deleteTerms ts idx).map (·.atoms) := by
+  rw [deleteAndReindex_eq]
+  simp only [deleteTerms, contains_sortDesc, List.filter_map, List.map_map]
+  rfl
+
+/-- deleting the returned row indices from a parallel array (types, extra fields) keeps exactly the entries of the
+    surviving terms -/
+theorem deleteTerms_parallel {β} (g : Term → β) (ts : List Term) (idx : List Nat) :
+    Generated.Py.npDelete (ts.map g) (Generated.Code.deleteAndReindex (ts.map (·.atoms)) (sortDesc idx)).2 =
+      (ts.filter (fun t => !(t.atoms.any (fun a => idx.contains a)))).map g := by
+  rw [deleteAndReindex_eq]
+  simp only [Generated.Py.npDelete, contains_sortDesc]
+  rw [zipIdx_collect_map (fun t : Term => t.atoms) (fun r => r.any (fun a => idx.contains a)) ts, deleteIdx_map]
+  have h := deleteIdx_collected (fun t : Term => t.atoms.any (fun a => idx.contains a)) ts
+  rw [h]
+
+/-- in particular the type ids and the extra columns that `__delitem__` filters with the returned row indices are those
+    of the model's surviving terms -/
+theorem deleteTerms_types (ts : List Term) (idx : List Nat) :
+    Generated.Py.npDelete (ts.map (·.ty)) (Generated.Code.deleteAndReindex (ts.map (·.atoms)) (sortDesc idx)).2 =
+      (deleteTerms ts idx).map (·.ty) := by
+  rw [deleteTerms_parallel]
+  simp [deleteTerms, List.map_map, Function.comp_def]
+
+theorem deleteTerms_extra (ts : List Term) (idx : List Nat) :
+    Generated.Py.npDelete (ts.map (·.extra)) (Generated.Code.deleteAndReindex (ts.map (·.atoms)) (sortDesc idx)).2 =
+      (deleteTerms ts idx).map (·.extra) := by
+  rw [deleteTerms_parallel]
+  simp [deleteTerms, List.map_map, Function.comp_def]
+
+example : Generated.Code.deleteAndReindex [[0, 1], [1, 2], [2, 3]] [1] = ([[1, 2]], [0, 1]) := by decide
 
 end Mofun.C10Code
